@@ -34,44 +34,50 @@ fn check_dag_sel(ont: &Ontology, r: &RefOnt, ids: &[u32], term_to_term: bool) ->
         for (ib, &b) in ids.iter().enumerate() {
             let (ta, tb) = (ont.hpo(a).unwrap(), ont.hpo(b).unwrap());
             // on every other pair the PATH queries are asked first (a query must not depend on which query was
-            // asked before); their answers are kept and compared with the ones obtained in the usual order
+            // asked before); their answers are kept and held to the same demands as the ones obtained in the usual order
             let early = if (ia + ib) % 2 == 1 {
                 Some((ta.path_to_ancestor(&tb).map(|p| p.iter().map(|x| x.as_u32()).collect::<Vec<u32>>()), if a != b && term_to_term { ta.path_to_term(&tb).map(|p| p.iter().map(|x| x.as_u32()).collect::<Vec<u32>>()) } else { None }))
             } else {
                 None
             };
             // --- to ancestor (a term is not its own ancestor: what the two functions answer for (t, t) is not
-            // fixed by the property - Some(0) / Some([]) and None are both accepted)
+            // fixed by the property - they are called, but no answer is demanded)
             let want_anc = up[&a].get(&b).copied();
             let got = ta.distance_to_ancestor(&tb);
-            if got != want_anc && !(a == b && got.is_none()) {
+            if a != b && got != want_anc {
                 return v("HpoTerm::distance_to_ancestor", "not the length of a shortest chain of parent links", format!("{a}.distance_to_ancestor({b}) = {got:?} expected {want_anc:?}"));
             }
             let path = ta.path_to_ancestor(&tb).map(|p| p.iter().map(|x| x.as_u32()).collect::<Vec<u32>>());
-            if let Some((ep, _)) = &early {
-                if *ep != path {
-                    return v("HpoTerm::path_to_ancestor", "answer depends on which queries were asked before", format!("{a}.path_to_ancestor({b}): asked first {ep:?}, asked after distance_to_ancestor {path:?}"));
+            // the answer given before the distance query and the one given after it are each held to the statement
+            // (with ties several shortest chains exist: WHICH one is returned may differ from call to call, so the
+            // two answers are not compared with each other beyond that)
+            let asked: Vec<(&Option<Vec<u32>>, &str)> = match &early {
+                Some((ep, _)) => vec![(ep, " (asked before distance_to_ancestor)"), (&path, "")],
+                None => vec![(&path, "")],
+            };
+            for (path, when) in asked {
+                if a == b {
+                    break;
                 }
-            }
-            match (&path, want_anc) {
-                (None, None) => {}
-                (None, Some(0)) if a == b => {}
-                (Some(p), Some(d)) => {
-                    if p.len() != d {
-                        return v("HpoTerm::path_to_ancestor", "path is not of minimal length", format!("{a}.path_to_ancestor({b}) = {p:?} but the shortest chain has {d} links"));
-                    }
-                    let mut prev = a;
-                    for x in p {
-                        if !r.terms[&prev].parents.contains(x) {
-                            return v("HpoTerm::path_to_ancestor", "path is not a chain of direct parent links", format!("{a}.path_to_ancestor({b}) = {p:?}: {x} is not a parent of {prev}"));
+                match (path, want_anc) {
+                    (None, None) => {}
+                    (Some(p), Some(d)) => {
+                        if p.len() != d {
+                            return v("HpoTerm::path_to_ancestor", "path is not of minimal length", format!("{a}.path_to_ancestor({b}){when} = {p:?} but the shortest chain has {d} links"));
                         }
-                        prev = *x;
+                        let mut prev = a;
+                        for x in p {
+                            if !r.terms[&prev].parents.contains(x) {
+                                return v("HpoTerm::path_to_ancestor", "path is not a chain of direct parent links", format!("{a}.path_to_ancestor({b}){when} = {p:?}: {x} is not a parent of {prev}"));
+                            }
+                            prev = *x;
+                        }
+                        if prev != b {
+                            return v("HpoTerm::path_to_ancestor", "path does not end in the ancestor", format!("{a}.path_to_ancestor({b}){when} = {p:?}"));
+                        }
                     }
-                    if prev != b {
-                        return v("HpoTerm::path_to_ancestor", "path does not end in the ancestor", format!("{a}.path_to_ancestor({b}) = {p:?}"));
-                    }
+                    (p, w) => return v("HpoTerm::path_to_ancestor", "present/absent for the wrong terms", format!("{a}.path_to_ancestor({b}){when} = {p:?} expected distance {w:?}")),
                 }
-                (p, w) => return v("HpoTerm::path_to_ancestor", "present/absent for the wrong terms", format!("{a}.path_to_ancestor({b}) = {p:?} expected distance {w:?}")),
             }
             if !term_to_term {
                 continue;
@@ -88,31 +94,33 @@ fn check_dag_sel(ont: &Ontology, r: &RefOnt, ids: &[u32], term_to_term: bool) ->
             }
             if a != b {
                 let path = ta.path_to_term(&tb).map(|p| p.iter().map(|x| x.as_u32()).collect::<Vec<u32>>());
-                if let Some((_, ep)) = &early {
-                    // several shortest walks may exist: only presence and length must not depend on the order
-                    if ep.as_ref().map(|p| p.len()) != path.as_ref().map(|p| p.len()) {
-                        return v("HpoTerm::path_to_term", "answer depends on which queries were asked before", format!("{a}.path_to_term({b}): asked first {ep:?}, asked after distance_to_term {path:?}"));
-                    }
-                }
-                match (&path, want) {
-                    (None, None) => {}
-                    (Some(p), Some(d)) => {
-                        let mut prev = a;
-                        for x in p {
-                            let t = &r.terms[&prev];
-                            if !t.parents.contains(x) && !t.children.contains(x) {
-                                return v("HpoTerm::path_to_term", "path is not a walk along parent/child links", format!("{a}.path_to_term({b}) = {p:?}: {prev} and {x} are not linked"));
+                // several shortest walks may exist: the answer given before the distance query and the one given
+                // after it are each held to the statement, not compared with each other
+                let asked: Vec<(&Option<Vec<u32>>, &str)> = match &early {
+                    Some((_, ep)) => vec![(ep, " (asked before distance_to_term)"), (&path, "")],
+                    None => vec![(&path, "")],
+                };
+                for (path, when) in asked {
+                    match (path, want) {
+                        (None, None) => {}
+                        (Some(p), Some(d)) => {
+                            let mut prev = a;
+                            for x in p {
+                                let t = &r.terms[&prev];
+                                if !t.parents.contains(x) && !t.children.contains(x) {
+                                    return v("HpoTerm::path_to_term", "path is not a walk along parent/child links", format!("{a}.path_to_term({b}){when} = {p:?}: {prev} and {x} are not linked"));
+                                }
+                                prev = *x;
                             }
-                            prev = *x;
+                            if prev != b {
+                                return v("HpoTerm::path_to_term", "path does not end in the second term", format!("{a}.path_to_term({b}){when} = {p:?}"));
+                            }
+                            if p.len() != d {
+                                return v("HpoTerm::path_to_term", "path length differs from distance_to_term", format!("{a}.path_to_term({b}){when} = {p:?} ({} steps) but distance is {d}", p.len()));
+                            }
                         }
-                        if prev != b {
-                            return v("HpoTerm::path_to_term", "path does not end in the second term", format!("{a}.path_to_term({b}) = {p:?}"));
-                        }
-                        if p.len() != d {
-                            return v("HpoTerm::path_to_term", "path length differs from distance_to_term", format!("{a}.path_to_term({b}) = {p:?} ({} steps) but distance is {d}", p.len()));
-                        }
+                        (p, w) => return v("HpoTerm::path_to_term", "present/absent inconsistently with the distance", format!("{a}.path_to_term({b}){when} = {p:?}, distance {w:?}")),
                     }
-                    (p, w) => return v("HpoTerm::path_to_term", "present/absent inconsistently with the distance", format!("{a}.path_to_term({b}) = {p:?}, distance {w:?}")),
                 }
             }
             // --- Distance similarity
@@ -165,9 +173,105 @@ fn large(ctx: &mut Ctx) {
     }
 }
 
+/// Shapes the shared large family does not hold: (a) two long upward legs - two chains of `leg` terms below
+/// HP:118 that meet only there, so that the walk between the two leaves has 2 x leg steps (both legs beyond 127
+/// resp. 255, their sum beyond 255 resp. 511) - every deep shape of the shared family has ONE long leg; (b) two
+/// terms with 35 and 34 direct parents out of 36 siblings: more than 30 pairwise incomparable common ancestors,
+/// all at the same distance. Returns (facts, description, positions in `terms` to pair up; empty = all).
+fn legs_and_fan() -> Vec<(Facts, String, Vec<usize>)> {
+    let mut out = vec![];
+    for leg in [200usize, 300] {
+        for reversed in [false, true] {
+            // positions: 0 = HP:1, 1 = HP:118, 2..2+leg = leg A from the top down, then leg B
+            let id = |k: usize| -> u32 {
+                match k {
+                    0 => 1,
+                    1 => 118,
+                    _ => if reversed { 9000 - k as u32 } else { 1000 + k as u32 },
+                }
+            };
+            let mut f = Facts::default();
+            f.version = (2024, 2, 29);
+            for k in 0..2 + 2 * leg {
+                f.terms.push(Facts::term(id(k), &format!("N{k}")));
+            }
+            f.edges.push((118, 1));
+            for l in 0..2 {
+                for d in 0..leg {
+                    let k = 2 + l * leg + d;
+                    f.edges.push((id(k), if d == 0 { 118 } else { id(k - 1) }));
+                }
+            }
+            // depths (1-based, below HP:118) worth pairing: the top of a leg, the 7- and 8-bit borders, the leaf
+            let mut sel: Vec<usize> = vec![0, 1];
+            for l in 0..2 {
+                for d in [1usize, 2, 127, 128, 129, 199, 200, 255, 256, 257, leg - 1, leg] {
+                    if d <= leg {
+                        sel.push(2 + l * leg + d - 1);
+                    }
+                }
+            }
+            sel.sort_unstable();
+            sel.dedup();
+            out.push((f, format!("two chains of {leg} terms below HP:118 that meet only there{}", if reversed { " (descendants have smaller ids)" } else { "" }), sel));
+        }
+    }
+    for reversed in [false, true] {
+        let id = |k: usize| -> u32 { if reversed { 5000 - 7 * k as u32 } else { 10 + 3 * k as u32 } };
+        let mut f = Facts::default();
+        f.version = (2024, 2, 29);
+        for k in 0..39 {
+            f.terms.push(Facts::term(id(k), &format!("N{k}")));
+        }
+        for k in 1..=36 {
+            f.edges.push((id(k), id(0)));
+        }
+        for p in 1..=35 {
+            f.edges.push((id(37), id(p)));
+        }
+        for p in 3..=36 {
+            f.edges.push((id(38), id(p)));
+        }
+        out.push((f, format!("fan: 36 siblings, two terms with 35 and 34 of them as direct parents (33 shared){}", if reversed { " (descendants have smaller ids)" } else { "" }), vec![]));
+    }
+    out
+}
+
+fn large_local(ctx: &mut Ctx) {
+    let family = legs_and_fan();
+    ctx.space("large-structured/two-long-legs+fan", &format!("{} shapes: two chains of 200 / 300 terms below HP:118 meeting only there (ordered pairs over ~24 selected terms: the roots and on each leg the depths 1, 2, 127..129, 199, 200, 255..257 and the leaf - walks of up to 600 steps with both legs beyond 255), 36 siblings with two terms below 35 and 34 of them (all ordered pairs; more than 30 incomparable common ancestors); both id directions", family.len()));
+    for (f, what, sel) in &family {
+        if !ctx.take() {
+            continue;
+        }
+        ctx.state();
+        ctx.nontrivial();
+        let r = RefOnt::derive(f);
+        let ids: Vec<u32> = if sel.is_empty() { f.terms.iter().map(|t| t.id).collect() } else { sel.iter().map(|k| f.terms[*k].id).collect() };
+        let n = ids.len();
+        ctx.transitions(f.n_steps() + (n * n * 7) as u64);
+        ctx.execs((n * n) as u64);
+        ctx.validateds((n * n) as u64);
+        let Ok(ont) = drive::build(f, Mode::Minimal) else {
+            ctx.violation("Builder", "[builder] construction fails on valid facts", json!({"shape": what}));
+            continue;
+        };
+        match guard(|| check_dag_ids(&ont, &r, &ids)) {
+            Ok(None) => {}
+            Ok(Some((site, sig, det))) => ctx.violation(&site, &format!("[large shape] {sig}"), json!({"shape": what, "n_terms": f.terms.len(), "difference": det})),
+            Err(p) => ctx.violation("HpoTerm::path_to_term", "[large shape] panics", json!({"shape": what, "observed": p})),
+        }
+        ctx.sample(|| json!({"shape": what, "n_terms": f.terms.len(), "ordered_pairs": n * n}));
+    }
+}
+
 pub fn run(ctx: &mut Ctx) {
     ctx.rule = "case = one labelled DAG, all ordered pairs of its terms; distinct by construction; non-trivial = depth >= 2 or a diamond (several routes of possibly different length)".into();
-    ctx.assumptions = vec!["acyclic graphs; Builder construction path (C01 establishes that the other paths build the same links)".into()];
+    ctx.assumptions = vec![
+        "acyclic graphs; Builder construction path (C01 establishes that the other paths build the same links)".into(),
+        "what distance_to_ancestor / path_to_ancestor answer for (t, t) is not fixed by the statement (a term is not its own ancestor): called, not compared".into(),
+        "with ties several shortest chains / walks exist: every returned path is held to the statement (valid links, right end, minimal length), two calls need not return the same one".into(),
+    ];
     let max_n = if ctx.tier.thorough() { 6 } else { 5 };
     for n in 1..=max_n {
         let dags = all_dags(n);
@@ -232,6 +336,7 @@ pub fn run(ctx: &mut Ctx) {
         }
     }
     large(ctx);
+    large_local(ctx);
     // ---- very deep shapes (beyond 512 / 1000 / 1024 / 2048 levels, 2^14 routes): selected pairs
     {
         let family = crate::props::common::very_deep_family();
